@@ -14,6 +14,11 @@
 #include "SigProc_FIX.h"
 #include "pitch_est_defines.h"
 #include "define.h"
+#ifdef FIXED_POINT
+#include "main_FIX.h"
+#else
+#include "main_FLP.h"
+#endif
 
 extern void (*opus_verif_silk_params_cb)(const silk_decoder_state *psDec,const silk_decoder_control *psDecCtrl,const opus_int16 *pNLSF_Q15) __attribute__((weak));
 
@@ -142,7 +147,35 @@ static void mode_hook(void){
   opus_decoder_destroy(d); vc_count("hook_silk_frames_observed",hook_frames-before); vc_sig3(Fs,ch,(uint64_t)((hook_frames-before)>0)); vc_sig3(hook_frames&1023,1,2);
 }
 
+/* ---------------------------------------------------------------- lockstep: after every packet of a loss-free stream the SILK encoder and the SILK decoder hold
+   the same quantised side information.  Both keep it for conditional coding of the next frame: the last gain index and the last quantised NLSF vector of
+   every channel coded in the packet's final 20 ms frame (read from the live objects: the SILK states sit at the offset stored in the second int of the
+   Opus encoder / decoder). */
+static int ls_last_frame[2]; static const void *ls_base=NULL; static int ls_nfr=0;
+static void ls_cb(const silk_decoder_state *d,const silk_decoder_control *c,const opus_int16 *nlsf){ (void)c; (void)nlsf; if(!ls_base) return; int n=(int)(d-(const silk_decoder_state*)ls_base); if(n<0||n>1) return; ls_last_frame[n]=d->nFramesDecoded; ls_nfr=d->nFramesPerPacket; }
+static void mode_lockstep(void){
+  if(!&opus_verif_silk_params_cb){ fprintf(stderr,"hook H2 (opus_verif_silk_params_cb) is missing from this tree\n"); exit(3); }
+  vc_rng r; vc_case_rng(&r,33); int err; int Fs=VC_PICK(&r,vk_rates), ch=vc_chance(&r,3,4)?2:1; OpusEncoder *e=opus_encoder_create(Fs,ch,vc_chance(&r,1,2)?OPUS_APPLICATION_VOIP:OPUS_APPLICATION_AUDIO,&err); OpusDecoder *d=opus_decoder_create(Fs,ch,&err);
+  opus_encoder_ctl(e,VK_SET_FORCE_MODE_REQUEST,VK_MODE_SILK); int per=vc_range(&r,7000,40000); opus_encoder_ctl(e,OPUS_SET_BITRATE(per*ch)); opus_encoder_ctl(e,OPUS_SET_COMPLEXITY(vc_below(&r,11))); if(vc_chance(&r,1,3)){ opus_encoder_ctl(e,OPUS_SET_INBAND_FEC(1)); opus_encoder_ctl(e,OPUS_SET_PACKET_LOSS_PERC(vc_range(&r,5,40))); }
+  if(vc_chance(&r,1,2)) opus_encoder_ctl(e,OPUS_SET_BANDWIDTH(OPUS_BANDWIDTH_NARROWBAND+(int)vc_below(&r,3))); if(ch==2&&vc_chance(&r,1,3)) opus_encoder_ctl(e,OPUS_SET_FORCE_CHANNELS(2));
+  silk_encoder *se=(silk_encoder*)((char*)e+((int*)e)[1]); silk_decoder_state *sd=(silk_decoder_state*)((char*)d+((int*)d)[1]);
+  vc_siggen g; vs_init(&g,vc_chance(&r,1,2)?VS_SPEECHLIKE:(int)vc_below(&r,VS_NFINITE),Fs,ch,(float)(0.05+0.7*vc_unit(&r)),vc_next(&r)); static float in[5760*2], out[5760*2]; unsigned char pk[1500]; int fidx=vc_range(&r,2,8); double mono=vc_chance(&r,1,2)?vc_unit(&r):0;   /* how close to mono the stereo input is (mid-only frames) */
+  opus_verif_silk_params_cb=ls_cb; ls_base=sd;
+  for(int k=0;k<40;k++){ if(vc_chance(&r,1,6)) opus_encoder_ctl(e,OPUS_SET_BITRATE(vc_range(&r,6000,40000)*ch)); if(vc_chance(&r,1,10)) fidx=vc_range(&r,2,8); if(vc_chance(&r,1,8)) mono=vc_chance(&r,1,2)?vc_unit(&r):0;
+    int fs=vk_frame_samples(Fs,fidx); vs_fill(&g,in,fs); if(ch==2&&mono>0) for(int i=0;i<fs;i++){ float m=0.5f*(in[2*i]+in[2*i+1]); in[2*i]=(float)(mono*m+(1-mono)*in[2*i]); in[2*i+1]=(float)(mono*m+(1-mono)*in[2*i+1]); }
+    int len=opus_encode_float(e,in,fs,pk,1500); if(len<=0){ vc_viol("lockstep:encode","%d",len); break; } if(len<=2||(pk[0]&0x80)) continue;   /* DTX / no SILK data */
+    ls_last_frame[0]=ls_last_frame[1]=-1; ls_nfr=0; int rc=opus_decode_float(d,pk,len,out,5760,0); if(rc<=0){ vc_viol("lockstep:decode","%d",rc); break; } vc_count("lockstep_packets",1);
+    if(pk[0]&3){ vc_count("lockstep_multi_frame_opus_packets",1); continue; }   /* 80/100/120 ms: several SILK packets; only the state after the last one could be compared */
+    for(int n=0;n<2;n++){ if(ls_last_frame[n]<0||ls_last_frame[n]!=ls_nfr-1) continue;   /* channel not coded in the packet's last 20 ms frame */
+      int ge=se->state_Fxx[n].sShape.LastGainIndex, gd=sd[n].LastGainIndex; vc_count(n?"lockstep_side_channel_compared":"lockstep_mid_channel_compared",1);
+      if(ge!=gd){ vc_viol("lockstep:gain-index","packet %d (toc %02x, %d SILK frames), channel %d: the encoder's last gain index is %d, the decoder's %d",k,pk[0],ls_nfr,n,ge,gd); goto out; }
+      if(memcmp(se->state_Fxx[n].sCmn.prev_NLSFq_Q15,sd[n].prevNLSF_Q15,sizeof(opus_int16)*sd[n].LPC_order)){ vc_viol("lockstep:nlsf","packet %d (toc %02x), channel %d: the encoder's last quantised NLSF vector differs from the decoder's",k,pk[0],n); goto out; } }
+    vc_sig3((uint64_t)(pk[0]>>2),(uint64_t)(ls_last_frame[1]>=0)|((uint64_t)ls_nfr<<1),(uint64_t)(Fs/8000)); }
+out:
+  opus_verif_silk_params_cb=NULL; ls_base=NULL; opus_encoder_destroy(e); opus_decoder_destroy(d);
+}
+
 int main(int argc,char **argv){
-  static const vc_mode_t modes[]={{"nlsf",mode_nlsf},{"nlsfenc",mode_nlsfenc},{"gains",mode_gains},{"pitch",mode_pitch},{"hook",mode_hook},{0,0}};
+  static const vc_mode_t modes[]={{"nlsf",mode_nlsf},{"nlsfenc",mode_nlsfenc},{"gains",mode_gains},{"pitch",mode_pitch},{"hook",mode_hook},{"lockstep",mode_lockstep},{0,0}};
   return vc_main(argc,argv,"C18",modes);
 }
